@@ -1,5 +1,5 @@
 """C17 - remote property access honours declared type and access mode."""
-from ..engine import Spec, assume, check, reached, HarnessError, notrace, concrete
+from ..engine import Spec, assume, check, reached, HarnessError, notrace, concrete, decode_choice, encode_choice
 from ..runner import Ob
 
 PROPERTY = 'C17'
@@ -16,8 +16,8 @@ EXPLANATION = (
     'variant of exactly the declared basic type; Set changes state iff writable; Get/GetAll reveal iff readable; unknown '
     'property/interface gives an error reply; GetAll returns exactly the readable properties of that interface; one '
     'PropertiesChanged signal per assignment iff the property is declared to emit.')
-BOUNDS = {'quick': '12 declarations (pairwise over 4 signatures x 3 access modes x 3 emit modes); histories of 2 steps over 16 step kinds; values from pools of 3 (boundaries, empty, multi-byte)',
-          'thorough': '36 declarations; histories of 3 steps'}
+BOUNDS = {'quick': '12 declarations (pairwise over 4 signatures x 3 access modes x 3 emit modes); histories of 3 steps over 16 step kinds; values from pools of 3 (boundaries, empty, multi-byte)',
+          'thorough': '36 declarations; histories of 4 steps'}
 ASSUMPTIONS = ['values come from pools of 3 per signature (selector variables): the solver contributes exhaustive coverage of the bounded history space, not arithmetic',
                'Get with an empty interface name may answer from any interface that has the property (the statement does not fix the choice)',
                'emit mode "invalidates" may emit nothing (the statement only fixes true / false)']
@@ -43,9 +43,9 @@ def _decls(tier):
 
 def obligations(tier):
     obs = []
-    k = 2 if tier == 'quick' else 3
+    k = 3 if tier == 'quick' else 4
     for (si, ai, ei) in _decls(tier):
-        firsts = [None] if k == 2 else list(range(NSTEPS))
+        firsts = [None] if k <= 3 else list(range(NSTEPS))
         for first in firsts:
             obs.append(Ob('hist:%s:%s:%s:k%d:first%s' % (SIGS[si], 'r' * ACCESS[ai][0] + 'w' * ACCESS[ai][1], EMITS[ei], k, first),
                           'hist', {'si': si, 'ai': ai, 'ei': ei, 'k': k, 'first': first}, timeout=900, path_timeout=60,
@@ -125,13 +125,13 @@ def build(family, p):
 
     VPOOL = {'y': [0, 255, 7], 'i': [-2 ** 31, 2 ** 31 - 1, 0], 's': ['', 'a', '\u00e9x'], 'as': ['', 'b', '\u20ac']}[sig]
 
-    def h(*args):
-        steps = args
-        for s in steps:
-            assume(0 <= s < NSTEPS)
-        if p.get('first') is not None:
-            assume(steps[0] == p['first'])
-        raw = [concrete(s) for s in steps]        # fork per history; the run below is concrete
+    first = p.get('first')
+    nfree = k if first is None else k - 1
+
+    def h(code):
+        raw = decode_choice(code, [NSTEPS] * nfree)       # one path per history; the run below is concrete
+        if first is not None:
+            raw = [first] + raw
         steps, vals = [], []
         for s in raw:
             if s < 3:
@@ -259,11 +259,8 @@ def build(family, p):
                 r, sg = remote('Set', 'ssv', [IA, 'Nope', wrap(v)])
                 check(r._messageType == 3 and not sg, 'Set of an unknown property must fail')
     h.__name__ = 'hist'
-    params = [('s%d' % i, int) for i in range(k)]
     wit = []
     for a in range(NSTEPS):
         w = [a] + [(a * 5 + 2) % NSTEPS] * (k - 1)
-        if p.get('first') is not None:
-            w[0] = p['first']
-        wit.append(tuple(w))
-    return Spec(h, params, witnesses=wit)
+        wit.append((encode_choice(w[:nfree], [NSTEPS] * nfree),))
+    return Spec(h, [('code', int)], witnesses=wit)
